@@ -269,7 +269,7 @@ func TestVerifC19Binary(t *testing.T) {
 		{"off-env-no-config-file", "env-var:no-config-file", "zero", true},
 		{"off-config-file-noproxy", "config-file", "zero", false},
 	}
-	rounds := kit.Scale(1, 4)
+	rounds := kit.Scale(2, 8)
 	base := kit.Mix(kit.Seed(), 0xC19B)
 	type result struct {
 		cs       c19BinCase
